@@ -6,8 +6,8 @@ from .common import bump
 ID = "C16"
 AREA = "c16"
 LEAN_PROPS = "Litep2pVerif.Props.C16"
-THEOREMS = ["terminal_once", "terminal_accounted", "terminal_once_at_quiescence_partial", "put_quorum_sound", "quorum_clamp_rule",
-            "settle_covers_timeouts"]
+THEOREMS = ["terminal_once", "terminal_accounted", "waiting_owned", "occupied_unreachable",
+            "terminal_once_at_quiescence", "put_quorum_sound", "quorum_clamp_rule", "settle_covers_timeouts"]
 CONSTS = ["KAD_READ_TIMEOUT_SECS", "KAD_WRITE_TIMEOUT_SECS"]
 _EXE = "src/protocol/libp2p/kademlia/executor.rs"
 CONST_TABLE = [
@@ -19,10 +19,14 @@ MANIFEST = {
             "per-peer pending actions, executor futures, the PUT_VALUE/ADD_PROVIDER tracker with its quorum clamping, and the "
             "iterative lookups abstracted to their pending sets), for every schedule of commands, engine actions, transport "
             "events and executor results: terminal_once, terminal_accounted (live xor exactly one terminal event), "
-            "put_quorum_sound, quorum_clamp_rule; terminal_once_at_quiescence_partial takes the ownership invariant "
-            "(every peer a live query waits for is owned by an outstanding dial, substream open or executor future) as a "
-            "hypothesis - that invariant is an executable predicate re-checked on every state of every validated trace, "
-            "not an unbounded theorem; plus a trace-validated correspondence run of the real Kademlia "
+            "waiting_owned (the ownership invariant: every peer a live query waits for is owned by an outstanding dial, "
+            "tracked substream open or executor future - proved by induction over the transition system together with "
+            "`peers` keys being connected peers and substream ids being unique), occupied_unreachable (the Entry::Occupied "
+            "branch of on_connection_established is dead), terminal_once_at_quiescence (full strength: once every "
+            "obligation is discharged and the engine drained, no query is live and every started operation has exactly "
+            "one terminal event), put_quorum_sound, quorum_clamp_rule; the ownership predicate is additionally "
+            "re-evaluated on every state of every validated trace (guarding the tie, not a hypothesis); "
+            "plus a trace-validated correspondence run of the real Kademlia "
             "event loop (paused clock, in-memory substreams, scripted transport events and remote peers) against the model, "
             "and a property-level oracle (per query exactly one terminal event once the environment has discharged every "
             "obligation; success of a put/announce only with enough peers that received the data).",
